@@ -189,6 +189,21 @@ class FuncInfo:
     def is_method(self) -> bool:
         return self.cls is not None and self.outer is None
 
+    def pos(self, node) -> int:
+        """position of node in source (execution) order of this function's tree - valid for inlined views too,
+        whose nodes carry the line numbers of the functions they came from"""
+        idx = getattr(self, "_pos_index", None)
+        if idx is None:
+            idx = {}
+
+            def rec(n):
+                idx[id(n)] = len(idx)
+                for c in ast.iter_child_nodes(n):
+                    rec(c)
+            rec(self.node)
+            self._pos_index = idx
+        return idx.get(id(node), -1)
+
     def is_static(self) -> bool:
         return any(isinstance(d, ast.Name) and d.id == "staticmethod" for d in self.node.decorator_list)
 
@@ -539,12 +554,72 @@ class Project:
                     if mth:
                         out.append(mth)
                 return out, "self" if out else "external"
+            # receiver is a local / parameter of known project class
+            ci = self.local_class(fi, f.value)
+            if ci is not None:
+                exact, cls_ = ci
+                out = []
+                for c in ([cls_] if exact else [cls_] + cls_.all_subclasses()):
+                    mth = c.find_method(f.attr)
+                    if mth and mth not in out:
+                        out.append(mth)
+                if len(out) == 1:
+                    return out, "direct"
+                if out:
+                    return out, "cha"
             # class-hierarchy analysis by method name
             cands = self.methods_named(f.attr)
             if cands:
                 return cands, "cha"
             return [], "external"
         return [], "unknown"
+
+    def local_class(self, fi: FuncInfo, recv):
+        """(exact, ClassInfo) when recv is a local whose every definition constructs the same project class (exact), or
+        a parameter annotated with a project class (not exact: subclasses possible); else None"""
+        if not isinstance(recv, ast.Name) or recv.id in ("self", "cls"):
+            return None
+        cache = fi.__dict__.setdefault("_local_class_cache", {})
+        if recv.id not in cache:
+            cache[recv.id] = self._local_class(fi, recv)
+        return cache[recv.id]
+
+    def _local_class(self, fi: FuncInfo, recv):
+        if recv.id in fi.params():
+            ann = fi.param_annotation(recv.id)
+            if isinstance(ann, ast.Constant) and isinstance(ann.value, str):
+                try:
+                    ann = ast.parse(ann.value, mode="eval").body
+                except SyntaxError:
+                    return None
+            if isinstance(ann, (ast.Name, ast.Attribute)):
+                tgt = self.resolve_name_in_module(fi.module, attr_chain(ann) or "")
+                if isinstance(tgt, ClassInfo):
+                    if any(isinstance(n, ast.Name) and n.id == recv.id and isinstance(n.ctx, ast.Store) for n in fi.walk()):
+                        return None
+                    return (False, tgt)
+            return None
+        classes = set()
+        stores = 0
+        for n in fi.walk():
+            if isinstance(n, ast.Name) and n.id == recv.id and isinstance(n.ctx, ast.Store):
+                stores += 1
+        defs = []
+        for n in fi.walk():
+            if isinstance(n, ast.Assign) and len(n.targets) == 1 and isinstance(n.targets[0], ast.Name) and n.targets[0].id == recv.id:
+                defs.append(n.value)
+            elif isinstance(n, ast.AnnAssign) and isinstance(n.target, ast.Name) and n.target.id == recv.id and n.value is not None:
+                defs.append(n.value)
+        if not defs or len(defs) != stores:
+            return None
+        for v in defs:
+            c = self.resolve_ctor(fi, v) if isinstance(v, ast.Call) else None
+            if c is None:
+                return None
+            classes.add(c)
+        if len(classes) == 1:
+            return (True, classes.pop())
+        return None
 
     def _targets_of(self, tgt, label) -> tuple[list[FuncInfo], str]:
         if isinstance(tgt, FuncInfo):
